@@ -865,7 +865,7 @@ func main() {
 
 func generate(w *run.W) {
 	// (a) general classes
-	nb := w.Pick(640, 6400)
+	nb := w.Pick(1200, 12000)
 	for batch := 0; batch < nb; batch++ {
 		if !w.Mine(batch) {
 			continue
@@ -877,7 +877,7 @@ func generate(w *run.W) {
 		}
 	}
 	// (b) wide objects: 9..200 members at top level (sort, scratch buffer, first-member fix-up at scale)
-	nw := w.Pick(1600, 16000)
+	nw := w.Pick(3000, 30000)
 	for i := 0; i < nw; i++ {
 		if !w.Mine(i) {
 			continue
